@@ -63,6 +63,32 @@ def run(ctx):
             ctx.sample({"kernel": im.lines, "isa": im.isa, "arch": im.arch, "lcd": sorted(im.lcd_set())})
         if len(ctx.violations) > 10:
             break
+    # kernels beyond the 50-line threshold of the multi-process search (the same cycles must be reported): a generated kernel
+    # padded with independent instructions, ending in a line that depends on itself across the iteration
+    from osaca.semantics import MachineModel
+
+    for t in range(3 if ctx.tier == "quick" else 30):
+        isa = "x86" if t % 2 == 0 else "aarch64"
+        arch = ctx.rng.choice(dgcheck.models_for(ctx, isa))
+        core_lines, _ = dgcheck.gen_kernel(ctx.rng, isa, 8, ctx.rng.choice(["plain", "coupled"]))
+        n_pad = ctx.rng.randrange(50, 58) - len(core_lines) - 1
+        if isa == "x86":
+            pad = ["vaddpd %%xmm%d, %%xmm%d, %%xmm%d" % (12 + i % 3, 12 + (i + 1) % 3, 15) for i in range(n_pad)]
+            last = ctx.rng.choice(["imulq %rsi, %rdx", "vmulpd %xmm9, %xmm10, %xmm10", "addq $8, %r11"])
+        else:
+            pad = ["fadd d%d, d%d, d%d" % (28, 29 + i % 2, 30) for i in range(n_pad)]
+            last = ctx.rng.choice(["mul x13, x13, x14", "fmul d27, d27, d26", "add x15, x15, #8"])
+        cut = ctx.rng.randrange(len(core_lines) + 1)
+        lines = core_lines[:cut] + pad + core_lines[cut:] + [last]
+        try:
+            im = dgcheck.Impl(isa, arch, lines, False, MachineModel(arch=arch))
+        except Exception as e:  # noqa
+            ctx.violation("analysis of a %d-line kernel raised %s" % (len(lines), type(e).__name__),
+                          {"isa": isa, "arch": arch, "kernel": lines, "flag_deps": False, "exception": type(e).__name__})
+            continue
+        ctx.count("kernels_beyond_threshold")
+        dgcheck.compare_lcd(ctx, im)
+        dgcheck.oracle_cycles(ctx, im)
     ctx.cov["evaluations"] = ctx.counts.get("kernels", 0) + ctx.counts.get("shifted_kernels", 0)
     ctx.cov["distinct_nontrivial"] = len(distinct)
     ctx.cov["traces_validated_against_impl"] = ctx.counts.get("lcd_compared", 0)
